@@ -1060,6 +1060,12 @@ fn c11_line_class_x(x: &str, a: &str, b: &str) -> &'static str {
         }) {
             return "comment-on-the-line-of-a-conditional-directive";
         }
+        // chained index brackets `a[i][j]` in a line that has to be broken inside the chain: the
+        // search returns to the first undecided break when a token overflows, and whether it then
+        // breaks before `[` or after it depends on which token overflowed first, i.e. on the width
+        if c == "plain-line" && (1..t.len()).any(|i| t[i].kind == Kind::Op(r::Op::LBrack) && t[i - 1].kind == Kind::Op(r::Op::RBrack)) {
+            return "chained-index-brackets";
+        }
     }
     c
 }
